@@ -271,7 +271,7 @@ func (e *emitter) tokens(t Term) []sTok {
 			items, ok := e.lists[lk]
 			if !ok {
 				if mk, isMk := x.Args[0].(TBuiltin); isMk && mk.Name == "make" {
-					items, ok = nil, true
+					items, ok = e.madeList(mk)
 				}
 			}
 			if !ok {
@@ -300,6 +300,26 @@ func (e *emitter) tokens(t Term) []sTok {
 		}
 	}
 	return e.bad("token source not understood: " + c.termStr(t))
+}
+
+// madeList: the items of a local []string created by make([]string, len[, cap]) in this call (len folded; items start empty).
+func (e *emitter) madeList(mk TBuiltin) ([][]sTok, bool) {
+	sl, ok := mk.Type.Underlying().(*types.Slice)
+	if !ok || !isStringType(sl.Elem()) || len(mk.Args) == 0 {
+		return nil, false
+	}
+	k := key(mk)
+	if items, ok := e.lists[k]; ok {
+		return items, true
+	}
+	te := &termEnv{hook: e.hook}
+	n, ok := te.int(mk.Args[0])
+	if !ok || n < 0 || n > 16 {
+		return nil, false
+	}
+	items := make([][]sTok, n)
+	e.lists[k] = items
+	return items, true
 }
 
 func (e *emitter) sprintf(args []Term) []sTok {
@@ -377,6 +397,20 @@ func (e *emitter) steps(steps []Step) bool {
 			// conditions of the selected path were folded by the caller
 		case "store":
 			// zero-initialisation of an addressed local buffer: nothing to emit
+			if ix, isIx := st.LHS.(TIndex); isIx {
+				// parts[i] = text, parts a local string slice created by make in this call
+				if mk, isMk := ix.X.(TBuiltin); isMk && mk.Name == "make" {
+					items, ok := e.madeList(mk)
+					te := &termEnv{hook: e.hook}
+					i, okI := te.int(ix.I)
+					if !ok || !okI || i < 0 || int(i) >= len(items) {
+						e.why = "store into a string slice at an index that cannot be folded or is out of range: " + e.c.termStr(st.LHS)
+						return false
+					}
+					items[i] = mergeToks(e.tokens(st.RHS))
+					continue
+				}
+			}
 			if _, isVar := st.LHS.(TVar); !isVar {
 				e.why = "store " + e.c.termStr(st.LHS)
 				return false
